@@ -103,6 +103,27 @@ func runC07(c *vkit.Ctx, lab *Lab, r *rand.Rand, i int) {
 	c.Count("processes", 3)
 	c.Count("addressed_calls", len(a.Calls))
 	allowed := lab.AllowedListings(res, a)
+	summaries := []*Summary{res.Summary}
+	if res.Summary2 != nil {
+		summaries = append(summaries, res.Summary2)
+	}
+	listedFile := func(p string) bool {
+		for _, s := range summaries {
+			if s != nil && inList(s.Files, p) {
+				return true
+			}
+		}
+		return false
+	}
+	listedTest := func(id string) int {
+		n := 0
+		for _, s := range summaries {
+			if s != nil && countOf(s.Tests, id) > n {
+				n = countOf(s.Tests, id)
+			}
+		}
+		return n
+	}
 	files := map[string]bool{}
 	twoCalls := false
 	standalone := false
@@ -124,7 +145,7 @@ func runC07(c *vkit.Ctx, lab *Lab, r *rand.Rand, i int) {
 				c.Violate("clean-wrote-addressed-standalone-file", "", cr.Path, in)
 				return
 			}
-			if res.Summary != nil && inList(res.Summary.Files, cr.Path) {
+			if listedFile(cr.Path) {
 				c.Violate("addressed-standalone-file-listed-obsolete", "", cr.Path, in)
 				return
 			}
@@ -155,11 +176,11 @@ func runC07(c *vkit.Ctx, lab *Lab, r *rand.Rand, i int) {
 			c.Violate("clean-altered-addressed-entry", nonTestIDClass(id), fmt.Sprintf("[%s]: %s -> %s", id, vkit.Q(pre[pi[0]].Body), vkit.Q(post[qi[0]].Body)), in)
 			return
 		}
-		if res.Summary != nil && countOf(res.Summary.Tests, id) > allowed[id] {
-			c.Violate("addressed-entry-listed-obsolete", nonTestIDClass(id), fmt.Sprintf("[%s] is listed %d time(s) although it was addressed (-count=%d); only %d unaddressed entries carry that id", id, countOf(res.Summary.Tests, id), lc.Count, allowed[id]), in)
+		if listedTest(id) > allowed[id] {
+			c.Violate("addressed-entry-listed-obsolete", nonTestIDClass(id), fmt.Sprintf("[%s] is listed %d time(s) although it was addressed (-count=%d); only %d unaddressed entries carry that id", id, listedTest(id), lc.Count, allowed[id]), in)
 			return
 		}
-		if res.Summary != nil && inList(res.Summary.Files, cr.Path) {
+		if listedFile(cr.Path) {
 			c.Violate("addressed-file-listed-obsolete", "", cr.Path, in)
 			return
 		}
